@@ -25,6 +25,18 @@
   one by one — each read is a yield point and may find the node gone —, then pops the removed
   members calling `on_leave` and calls `on_join` for the members read), callbacks that may raise.
 
+  Listings by the consumer (`get_members()` / `__iter__`, what `ZooKeeperServerSetProvider.
+  GetServers()` calls — every client does so once while it opens): `with self._cb_blocker:` list
+  the children (answered at once, no watch), then read the members one by one (each read is in
+  flight like the worker's: requested, served, returned; a member that vanished in between is
+  skipped), return the members read.  Any number of listings may be in progress (`St.lists`;
+  `_CallbackBlocker._count` is their number, its event is set iff there is none).  The worker
+  calls `_cb_blocker.ensure_safe()` once per update, right after taking it from the queue: while
+  a listing is in progress it does not *begin* an update (an update whose reads are already under
+  way goes on and is delivered); it goes on when the last listing has returned.  In the model an
+  update the worker has taken but is held back on stays at the head of `St.queue`
+  (`_notification_queue` is `St.queue` without it).
+
   Names are natural numbers; `n < lim` is the member filter.  What a znode contains is
   `Cfg.keyOf`: the Member it carries up to `Member.__eq__` (endpoints, status, shard — not the
   znode name); different names may carry equal Members (a server that re-registered).  The
@@ -112,6 +124,14 @@ structure Job where
   got : List Nat         -- members read so far, in read order
   deriving Repr, DecidableEq
 
+/-- a listing by the consumer (`get_members()`) that is reading the members it listed -/
+structure Lst where
+  id : Nat               -- how many listings were started before this one
+  todo : List Nat        -- members listed, still to be read
+  cur : Rd               -- the read in flight
+  got : List Nat         -- members read so far, in read order
+  deriving Repr, DecidableEq
+
 /-- a notification: (true, n) = on_join(n), (false, n) = on_leave(n) -/
 abbrev Note := Bool × Nat
 
@@ -130,13 +150,18 @@ structure St where
   watched : Option Nat      -- ServerSet._watching: the incarnation being watched
   nodes : List Nat          -- ServerSet._nodes
   members : List Nat        -- keys of ServerSet._members, in dict order
-  queue : List (List Nat)   -- ServerSet._notification_queue
+  queue : List (List Nat)   -- updates queued for the worker: `_notification_queue`, preceded by the
+                            -- update the worker has taken and is held back on by a listing, if any
   job : Option Job          -- what the worker is in the middle of
+  lgen : Nat := 0           -- listings started so far
+  lists : List Lst := []    -- listings in progress (`_cb_blocker._count` of them), in start order
+  done : List (Nat × List Nat) := []   -- listings that returned: (id, members returned), in return order
   deriving Repr, DecidableEq
 
 def St.init : St :=
   { tree := Tree.init, started := false, dw := false, cw := [], pending := [], seen := none,
-    everCalled := false, watched := none, nodes := [], members := [], queue := [], job := none }
+    everCalled := false, watched := none, nodes := [], members := [], queue := [], job := none,
+    lgen := 0, lists := [], done := [] }
 
 /-! ## environment steps -/
 
@@ -222,12 +247,20 @@ def pump (members : List Nat) : List (List Nat) → Option Nat → Option WSt
         else none
       | none => none
 
-/-- after an event was delivered (or at construction): a worker waiting on the queue runs -/
+/-- the worker loop with `ensure_safe()`: while a listing is in progress (`free = false`) the
+    worker does not begin an update — whatever is queued stays queued -/
+def pumpB (free : Bool) (members : List Nat) (queue : List (List Nat)) (nxt : Option Nat) :
+    Option WSt :=
+  if free then pump members queue nxt
+  else if nxt.isNone then some ⟨members, queue, none, []⟩ else none
+
+/-- after an event was delivered, at construction, or when a listing returned: a worker that is
+    not in the middle of an update runs (if no listing holds it back) -/
 def wake (s : St) (nxt : Option Nat) : Option (St × List Note) :=
   match s.job with
   | some _ => if nxt.isNone then some (s, []) else none
   | none =>
-    (pump s.members s.queue nxt).map
+    (pumpB s.lists.isEmpty s.members s.queue nxt).map
       (fun w => ({ s with members := w.members, queue := w.queue, job := w.job }, w.notes))
 
 /-- the read in flight is answered by the server -/
@@ -248,13 +281,71 @@ def retStep (s : St) (nxt : Option Nat) : Option (St × List Note) :=
       let got := if found then j.got ++ [n] else j.got
       if j.todo.isEmpty then
         let r := finishJob s.members j.listing got
-        (pump r.1 s.queue nxt).map
+        (pumpB s.lists.isEmpty r.1 s.queue nxt).map
           (fun w => ({ s with members := w.members, queue := w.queue, job := w.job }, r.2 ++ w.notes))
       else
         match nxt with
         | some m =>
           if j.todo.contains m then
             some ({ s with job := some { j with todo := j.todo.erase m, cur := .requested m, got := got } }, [])
+          else none
+        | none => none
+    | .requested _ => none
+  | none => none
+
+/-! ## listings by the consumer -/
+
+/-- replace the listing with id `i` (the first one, as `find?` finds it; ids are unique) -/
+def Lst.upd (i : Nat) (f : Lst → Lst) : List Lst → List Lst
+  | [] => []
+  | x :: xs => if x.id = i then f x :: xs else x :: Lst.upd i f xs
+
+/-- drop the listing with id `i` -/
+def Lst.drop (i : Nat) : List Lst → List Lst
+  | [] => []
+  | x :: xs => if x.id = i then xs else x :: Lst.drop i xs
+
+/-- `get_members()` is called: the blocker is entered, the children are listed; with no member
+    to read the listing returns at once (`nxt` must be `none`), otherwise `nxt` names the member
+    whose read is requested first (any of those listed: the order is ZooKeeper's) -/
+def listStep (cfg : Cfg) (s : St) (nxt : Option Nat) : Option St :=
+  let l := s.tree.present cfg.lim
+  match nxt with
+  | none =>
+    if l.isEmpty then some { s with lgen := s.lgen + 1, done := s.done ++ [(s.lgen, [])] } else none
+  | some n =>
+    if l.contains n then
+      some { s with lgen := s.lgen + 1, lists := s.lists ++ [⟨s.lgen, l.erase n, .requested n, []⟩] }
+    else none
+
+/-- the read in flight of listing `i` is answered by the server -/
+def lserveStep (s : St) (i : Nat) : Option St :=
+  match s.lists.find? (fun x => x.id = i) with
+  | some l =>
+    match l.cur with
+    | .requested n =>
+      let f : Lst → Lst := fun x => { x with cur := .served n (s.tree.kids.contains n) }
+      some { s with lists := Lst.upd i f s.lists }
+    | .served _ _ => none
+  | none => none
+
+/-- the answer reaches listing `i`: it requests its next read (`nxt`: any member still to be
+    read), or — nothing left to read — returns what it read and leaves the blocker; if it was the
+    last listing in progress the worker goes on (`nxt` then names the worker's first read) -/
+def lretStep (s : St) (i : Nat) (nxt : Option Nat) : Option (St × List Note) :=
+  match s.lists.find? (fun x => x.id = i) with
+  | some l =>
+    match l.cur with
+    | .served n found =>
+      let got := if found then l.got ++ [n] else l.got
+      if l.todo.isEmpty then
+        wake { s with lists := Lst.drop i s.lists, done := s.done ++ [(i, got)] } nxt
+      else
+        match nxt with
+        | some m =>
+          if l.todo.contains m then
+            let f : Lst → Lst := fun x => { x with todo := l.todo.erase m, cur := .requested m, got := got }
+            some ({ s with lists := Lst.upd i f s.lists }, [])
           else none
         | none => none
     | .requested _ => none
@@ -268,6 +359,9 @@ inductive Op where
   | deliver (nxt : Option Nat)    -- the oldest fired event reaches its watcher
   | serve
   | ret (nxt : Option Nat)
+  | list (nxt : Option Nat)           -- the consumer calls get_members()
+  | lserve (i : Nat)                  -- the read in flight of listing `i` is served
+  | lret (i : Nat) (nxt : Option Nat) -- … and returns
   deriving Repr, DecidableEq
 
 /-- `none`: the operation is not enabled in `s` (or its label is not a legal choice) -/
@@ -284,10 +378,16 @@ def next (cfg : Cfg) (s : St) : Op → Option (St × List Note)
     else none
   | .serve => (serveStep s).map (fun s' => (s', []))
   | .ret nxt => retStep s nxt
+  | .list nxt => if s.started then (listStep cfg s nxt).map (fun s' => (s', [])) else none
+  | .lserve i => if s.started then (lserveStep s i).map (fun s' => (s', [])) else none
+  | .lret i nxt => if s.started then lretStep s i nxt else none
 
-/-- nothing is on its way: no fired event undelivered, queue empty, worker waiting on it -/
+/-- nothing is on its way, as the environment sees it: no fired event undelivered, no member
+    read in flight (the worker's or a listing's), no listing in progress — no scheduler step is
+    enabled.  (In the model the queue is then empty: `Inv0.wok.idle`; an implementation whose
+    worker is stuck is judged in such a state all the same.) -/
 def St.quiet (s : St) : Bool :=
-  s.started && s.pending.isEmpty && s.queue.isEmpty && s.job.isNone
+  s.started && s.pending.isEmpty && s.job.isNone && s.lists.isEmpty
 
 /-- run an operation list, collecting the notifications; disabled operations are skipped -/
 def exec (cfg : Cfg) : St → List Op → St × List Note
